@@ -405,8 +405,19 @@ br_ssl_engine_set_buffers_bidi(br_ssl_engine_context *rc,
 	if (ibuf == NULL) {
 		if (rc->ibuf == NULL) {
 			br_ssl_engine_fail(rc, BR_ERR_BAD_PARAM);
+		} else {
+			/*
+			 * Buffers are reused (context reset): the fragment
+			 * length limits must be recomputed, so that what
+			 * the previous connection negotiated is forgotten.
+			 */
+			ibuf = rc->ibuf;
+			ibuf_len = rc->ibuf_len;
+			obuf = rc->obuf;
+			obuf_len = rc->obuf_len;
 		}
-	} else {
+	}
+	if (ibuf != NULL) {
 		unsigned u;
 
 		rc->ibuf = ibuf;
